@@ -150,15 +150,30 @@ def run(chk, tier):
         leaves = {repr(x) for x in sym._leaves(got, [])}
         okk = leaves == {repr(("vfld", F("0"), "Owned", "0")), repr(("vfld", F("0"), "Borrowed", "0"))}
         chk.ob("R-WIRE", REC + "data", okk, "data() is the wrapped byte slice, borrowed or owned", fn.where(), key="data")
-    # File::records skips exactly the header
+    # File::records skips exactly the header: compared as a function of the file's bytes (lengths around the header size);
+    # splitting nothing yields no records (the tiling induction's base case), so `Vec::new()` and `split(b"")` are one value
     ev1 = sym.Evaluator(prog, opaque_local=[SPLIT])
     got, fn = eval_or_blind(chk, ev1, "VN", RECORDS)
     if got is not None:
         hsize = prog.adts[HDR]["size"] if HDR in prog.adts else None
-        want = call(SPLIT, call("core::option::Option::<T>::unwrap_or_default", call("core::slice::<impl [T]>::get", F("0"), adt("core::ops::range::RangeFrom", "RangeFrom", (("start", C(24, "usize")),)))))
-        alt = call(SPLIT, call("<alloc::vec::Vec<T, A> as core::ops::index::Index<I>>::index", F("0"), adt("core::ops::range::RangeFrom", "RangeFrom", (("start", C(24, "usize")),))))
-        chk.ob("VN", RECORDS, got in (want, alt) and hsize == 24, "records() splits the bytes after the 24-byte header (size_of::<Header>() = %s)" % hsize if got in (want, alt) else
-               "records() is %s" % show(got)[:300], fn.where(), key="skip-header")
+        file_bytes = F("0")
+        empty_vec = call("alloc::vec::Vec::<T>::new")
+        bad = None
+        for n in (0, 1, 23, 24, 25, 30):
+            wd = bytepred.World(n, {i: (i * 7 + 1) & 0xFF for i in range(n)})
+            try:
+                r = bytepred.evalw(got, file_bytes, wd)
+            except (bytepred.Unknown, bytepred.Undefined) as e:
+                bad = "%s on a %d-byte file" % (type(e).__name__, n)
+                break
+            want = ("call", SPLIT, (("bytes", wd.bytes[24:]),)) if n > 24 else empty_vec
+            if isinstance(r, tuple) and r[0] == "call" and r[1] == SPLIT and r[2] == (("bytes", b""),):
+                r = empty_vec
+            if r != want:
+                bad = "on a %d-byte file it is %s" % (n, show(r)[:160] if isinstance(r, tuple) else r)
+                break
+        chk.ob("VN", RECORDS, bad is None and hsize == 24, "records() splits the bytes after the 24-byte header (size_of::<Header>() = %s), nothing when the file is shorter" % hsize if bad is None else
+               "records() does not split exactly the bytes after the header: %s" % bad, fn.where(), key="skip-header")
     # header accessors
     for acc, field in (("tape_filename", "tape_filename"), ("extension_number", "extension_number"), ("icao_of_radar", "icao_of_radar")):
         got, fn = eval_or_blind(chk, ev0, "R-WIRE", HDR + "::" + acc)
